@@ -194,8 +194,8 @@ theorem copy_is_snapshot {s : SetImpl α} (h : Inv R s) : copy s = s := copy_eq 
 theorem sample_m3e6_lawful : Sample.m3e6.Lawful := by
   refine ⟨?_, ?_, ?_, ?_⟩ <;> simp only [Sample.m3e6, beq_iff_eq] <;> intros <;> first | trivial | omega
 
-theorem sample_m2e8_lawful : Sample.m2e8.Lawful := by
-  refine ⟨?_, ?_, ?_, ?_⟩ <;> simp only [Sample.m2e8, beq_iff_eq] <;> intros <;> first | trivial | omega
+theorem sample_m2e12_lawful : Sample.m2e12.Lawful := by
+  refine ⟨?_, ?_, ?_, ?_⟩ <;> simp only [Sample.m2e12, beq_iff_eq] <;> intros <;> first | trivial | omega
 
 theorem sample_ordTotal_lawful : Sample.ordTotal.Lawful := by
   refine ⟨?_, ?_, ?_, ?_⟩ <;> simp only [Sample.ordTotal, beq_iff_eq] <;> intros <;> first | trivial | omega
